@@ -70,6 +70,9 @@ def run(ck, facts, tier):
         else:
             ok = ok and set(v.fields) == {"real", "dual", "vars"}
         ck.check(r24, short, ok, "conversion alters value, gradient or variable list, or does not add a zero Hessian: %s" % cel.vfmt(v)[:300], where, sample=cel.vfmt(v)[:200])
+    # "a Hessian, read back per variable pair": the read-back rules of gradient1/gradient2 on Dual2 (C17 R17.1/R17.2) are necessary conditions here too
+    from rules import c17
+    c17.run(ck, facts, tier, only={"gradient1[Dual2]", "gradient2[Dual2]"})
     ck.not_decided += ["IEEE rounding; library kernels are atoms", "symmetry of a user-supplied asymmetric dual2 array",
                        "Hessian read-back factor 2 is C17's R17.2 (shared rule)"]
     ck.trusted += ["lib/oracle.py", "lib/cel.py"]
